@@ -440,35 +440,48 @@ func checkTypedStorePlumbing(r *Reporter, p *Prog) {
 			r.Unresolved("codec/plumbing", key, "method not found")
 			continue
 		}
+		// judged on the operation with its encode/decode helpers in place: every value an argument of
+		// the store call can stand for (on a path that reaches the call) is the configured codec applied
+		// to the caller's own parameter
+		f := newFuncCFG(p, info, fd.Body, key)
 		var call *ast.CallExpr
 		n := 0
-		ast.Inspect(fd.Body, func(nd ast.Node) bool {
-			if c, ok := nd.(*ast.CallExpr); ok {
-				if se, ok := ast.Unparen(c.Fun).(*ast.SelectorExpr); ok && fieldSel(info, se.X, "kv") {
-					n++
-					if se.Sel.Name == rw.kvCall {
-						call = c
-					}
-				}
+		for _, c := range f.Calls(func(c *ast.CallExpr) bool {
+			se, ok := ast.Unparen(c.Fun).(*ast.SelectorExpr)
+			return ok && fieldSel(info, se.X, "kv")
+		}) {
+			n++
+			if ast.Unparen(c.Fun).(*ast.SelectorExpr).Sel.Name == rw.kvCall {
+				call = c
 			}
-			return true
-		})
+		}
 		if call == nil || n != 1 || len(call.Args) != len(rw.args) {
 			r.Fail("codec/plumbing", key, p.posStr(fd.Pos()), fmt.Sprintf("expected exactly one store call kv.%s with %d argument(s); found %d store calls", rw.kvCall, len(rw.args), n))
 			continue
 		}
+		cpt, _ := f.PointOf(call)
 		params := paramObjs(info, fd)
 		ok := true
 		detail := ""
 		for i, codec := range rw.args {
-			dc := definingCall(info, fd.Body, call.Args[i])
-			if dc == nil {
-				ok, detail = false, fmt.Sprintf("argument %d of kv.%s is not the result of a single codec call", i, rw.kvCall)
+			os := f.Origins(call.Args[i], cpt)
+			if len(os) == 0 {
+				ok, detail = false, fmt.Sprintf("argument %d of kv.%s is not the result of a codec call", i, rw.kvCall)
 				break
 			}
-			se, isSel := ast.Unparen(dc.Fun).(*ast.SelectorExpr)
-			if !isSel || !fieldSel(info, se, codec) || len(dc.Args) != 1 || objOfIdent(info, dc.Args[0]) != params[i] {
-				ok, detail = false, fmt.Sprintf("argument %d of kv.%s must be %s(<parameter %d>)", i, rw.kvCall, codec, i)
+			for _, o := range os {
+				dc, isCall := ast.Unparen(o.E).(*ast.CallExpr)
+				if !isCall {
+					ok, detail = false, fmt.Sprintf("argument %d of kv.%s can be %s, which is not the result of a codec call", i, rw.kvCall, exprKey(o.E))
+					break
+				}
+				se, isSel := ast.Unparen(dc.Fun).(*ast.SelectorExpr)
+				if !isSel || !fieldSel(info, se, codec) || len(dc.Args) != 1 || i >= len(params) || !(objOfIdent(info, dc.Args[0]) == params[i] || f.IsVar(dc.Args[0], o.At, params[i])) {
+					ok, detail = false, fmt.Sprintf("argument %d of kv.%s must be %s(<parameter %d>)", i, rw.kvCall, codec, i)
+					break
+				}
+			}
+			if !ok {
 				break
 			}
 		}
@@ -480,26 +493,67 @@ func checkTypedStorePlumbing(r *Reporter, p *Prog) {
 	}
 	// Get returns the decoded store value
 	if fd := p.FuncDecl(pkg, "TypedStore", "Get"); fd != nil {
-		okAll := false
-		ast.Inspect(fd.Body, func(nd ast.Node) bool {
-			rs, ok := nd.(*ast.ReturnStmt)
-			if !ok || len(rs.Results) != 2 || !isNil(info, rs.Results[1]) {
-				return true
+		f := newFuncCFG(p, info, fd.Body, "kvstore.TypedStore.Get")
+		okAll, nSucc := true, 0
+		// the successful outcomes: return sites (of Get, or of a helper whose call Get returns) whose
+		// error result is the literal nil
+		type outcome struct {
+			v  ast.Expr
+			pt Point
+		}
+		var succ []outcome
+		var collect func(results []ast.Expr, pt Point, depth int)
+		collect = func(results []ast.Expr, pt Point, depth int) {
+			if len(results) == 2 && isNil(info, results[1]) {
+				succ = append(succ, outcome{results[0], pt})
+				return
 			}
-			dc := definingCall(info, fd.Body, rs.Results[0])
-			if dc == nil {
-				return true
-			}
-			if se, ok := ast.Unparen(dc.Fun).(*ast.SelectorExpr); ok && fieldSel(info, se, "bytesToValue") && len(dc.Args) == 1 {
-				if dc2 := definingCall(info, fd.Body, dc.Args[0]); dc2 != nil {
-					if se2, ok := ast.Unparen(dc2.Fun).(*ast.SelectorExpr); ok && se2.Sel.Name == "Get" && fieldSel(info, se2.X, "kv") {
-						okAll = true
+			if len(results) == 1 && depth > 0 {
+				if c, isCall := ast.Unparen(results[0]).(*ast.CallExpr); isCall {
+					if reg := f.regionByCall(c); reg != nil {
+						for _, rt := range reg.rets {
+							collect(rt.results, rt.pt, depth-1)
+						}
 					}
 				}
 			}
-			return true
-		})
-		if okAll {
+		}
+		for _, rpt := range f.FindOwn(func(nd ast.Node) bool { _, ok := nd.(*ast.ReturnStmt); return ok }) {
+			collect(f.nodeAt(rpt).(*ast.ReturnStmt).Results, rpt, 3)
+		}
+		isDecodeOfGet := func(e ast.Expr, pt Point) bool {
+			dc, isCall := ast.Unparen(e).(*ast.CallExpr)
+			if !isCall || len(dc.Args) != 1 {
+				return false
+			}
+			se, ok := ast.Unparen(dc.Fun).(*ast.SelectorExpr)
+			if !ok || !fieldSel(info, se, "bytesToValue") {
+				return false
+			}
+			all := true
+			os := f.Origins(dc.Args[0], pt)
+			for _, so := range os {
+				dc2, isCall2 := ast.Unparen(so.E).(*ast.CallExpr)
+				if !isCall2 {
+					all = false
+					continue
+				}
+				se2, ok := ast.Unparen(dc2.Fun).(*ast.SelectorExpr)
+				if !ok || se2.Sel.Name != "Get" || !fieldSel(info, se2.X, "kv") {
+					all = false
+				}
+			}
+			return all && len(os) > 0
+		}
+		for _, oc := range succ {
+			for _, o := range f.Origins(oc.v, oc.pt) {
+				nSucc++
+				if !isDecodeOfGet(o.E, o.At) {
+					okAll = false
+				}
+			}
+		}
+		if okAll && nSucc > 0 {
 			r.Pass("codec/plumbing", "kvstore.TypedStore.Get result", p.posStr(fd.Pos()), "success return is bytesToValue(kv.Get(...))")
 		} else {
 			r.Fail("codec/plumbing", "kvstore.TypedStore.Get result", p.posStr(fd.Pos()), "the successful return value is not the decoding of the bytes read from the store")
@@ -577,15 +631,48 @@ func checkIterateStopAndReport(r *Reporter, p *Prog, pkg string, fd *ast.FuncDec
 	}) {
 		nDecode++
 		_, fails := lf.ErrEdges(c)
-		if len(fails) == 0 {
+		// where a failure of c starts: the failure edges of the test of its error, or - when the error
+		// is handed back untested by the helper c sits in - the statement after c with the error
+		// variable known to be non-nil (the path search carries that to whoever tests it)
+		type failStart struct {
+			start Point
+			edge  *Edge
+			init  map[types.Object]bool
+		}
+		var starts []failStart
+		for i := range fails {
+			fe := fails[i]
+			starts = append(starts, failStart{Point{fe.From.Succs[fe.Succ], 0}, &fe, nil})
+		}
+		if len(starts) == 0 {
+			for _, b := range lf.G.Blocks {
+				if !b.Live {
+					continue
+				}
+				for bi, nd := range b.Nodes {
+					as, isAs := nd.(*ast.AssignStmt)
+					if !isAs || len(as.Rhs) != 1 || ast.Unparen(as.Rhs[0]) != ast.Expr(c) {
+						continue
+					}
+					if v, isVar := objOfIdentRaw(info, as.Lhs[len(as.Lhs)-1]).(*types.Var); isVar && types.Identical(v.Type(), errorType) {
+						starts = append(starts, failStart{Point{b, bi + 1}, nil, map[types.Object]bool{v: true}})
+					}
+				}
+			}
+		}
+		if len(starts) == 0 {
 			bad = fmt.Sprintf("%s: decode error is not tested", p.posStr(c.Pos()))
 			break
 		}
-		for _, fe := range fails {
-			// from the failure edge every path to exit must pass `outer = err` and end in `return false`
-			start := Point{fe.From.Succs[fe.Succ], 0}
-			if w, found := lf.reach(start, &searchOpts{AvoidNode: func(n ast.Node) bool {
+		for _, fs := range starts {
+			// from the failure every path to exit must pass `outer = err` and end in `return false`
+			start := fs.start
+			if w, found := lf.reach(start, &searchOpts{FromEdge: fs.edge, InitFacts: fs.init, AvoidNode: func(n ast.Node) bool {
 				as, ok := n.(*ast.AssignStmt)
+				if ok && len(as.Lhs) > 1 && len(as.Rhs) == 1 {
+					// `k, v, outer = helper(...)`: the error result of the helper lands in the last variable
+					as = &ast.AssignStmt{Lhs: as.Lhs[len(as.Lhs)-1:], Tok: as.Tok, Rhs: as.Rhs}
+				}
 				if !ok || len(as.Lhs) != 1 {
 					return false
 				}
@@ -622,8 +709,7 @@ func checkIterateStopAndReport(r *Reporter, p *Prog, pkg string, fd *ast.FuncDec
 			}
 			// ... and the consumer returns false: the literal, or an expression that is false on this
 			// path (`return recorded == nil`, the result of a helper that returned false)
-			fe := fe
-			if w, found := lf.reach(start, &searchOpts{FromEdge: &fe, AvoidRet: func(rs *ast.ReturnStmt, val func(ast.Expr) int8) bool {
+			if w, found := lf.reach(start, &searchOpts{FromEdge: fs.edge, InitFacts: fs.init, AvoidRet: func(rs *ast.ReturnStmt, val func(ast.Expr) int8) bool {
 				return len(rs.Results) == 1 && val(rs.Results[0]) < 0
 			}}, func(pt Point, atExit bool) bool { return atExit }); found {
 				bad = fmt.Sprintf("%s: a failing decode does not stop the iteration with `return false` (%s)", p.posStr(c.Pos()), strings.Join(w, " -> "))
